@@ -23,7 +23,7 @@ ASSUMPTIONS = [
     'the watch stream delivers per-connection FIFO (as Kubernetes does); after a cancellation unprocessed tail events are allowed',
     'the API-server model and virtual time of kopfsim',
 ]
-BUDGET = {'quick': 150, 'thorough': 6000}
+BUDGET = {'quick': 150, 'thorough': 4000}
 EPS = 1e-10
 
 
